@@ -174,6 +174,9 @@ def mean_method_rules(ctx, p, f_eq, fmax, power, nb):
     slot = tab.args[1]
     okslot = isinstance(slot, sp.Tuple) and len(slot.args) == 2 and fname(slot.args[1]) == "loopprefix" \
         and slot.args[1].args[0] == 1 and slot.args[1].args[1] == lv
+    rng0 = tab.args[4] if len(tab.args) > 4 else None
+    if not okslot and isinstance(slot, sp.Tuple) and len(slot.args) == 2 and fname(rng0) == "range" and len(rng0.args) == 2:
+        okslot = sp.expand(slot.args[1] - (lv - rng0.args[0])) == 0       # slot = window start - scan start
     ctx.expect(okslot, "R12.5", tag + "[criterion slots]", "window k of the scan is stored in slot k (a counter that starts at 0 "
                "and advances by one per window)", f_eq.loc(), derived=slot)
     rng = tab.args[4] if len(tab.args) > 4 else None
@@ -189,14 +192,28 @@ def mean_method_rules(ctx, p, f_eq, fmax, power, nb):
         if oksel:
             t2 = t2.xreplace({sel[0] + i_min: IM}).xreplace({sel[0]: IM - i_min})
         sums = T.find_ops(t2, "loopsum")
-        vsums = [x for x in T.find_ops(t2, "sum") if len(x.args) == 2 and x.args[1] == 0 and fname(x.args[0]) == "item"]
+        def sum_axis(x):
+            if len(x.args) == 2 and getattr(x.args[1], "is_Integer", False):
+                return int(x.args[1])
+            if len(x.args) == 2 and isinstance(x.args[1], sp.Tuple) and len(x.args[1].args) == 2 and x.args[1].args[0] == Str("axis") \
+                    and getattr(x.args[1].args[1], "is_Integer", False):
+                return int(x.args[1].args[1])
+            return None
+        vsums = [x for x in T.find_ops(t2, "sum") if sum_axis(x) in (0, -1) and fname(x.args[0]) == "item"]
         detail = ""
         if oksel and not sums and len(vsums) == 1 and V not in t2.free_symbols:
             # vectorised form: gather all bins of the window along a new leading axis and sum over it
+            offset_axes = []
+
             def drop_newaxis(t):
                 def fn(n):
                     if fname(n) == "item" and isinstance(n.args[1], sp.Tuple) and NONE_T in n.args[1].args and all(
                             a == NONE_T or fname(a) == "slc" for a in n.args[1].args):
+                        if fname(n.args[0]) == "arange":
+                            # the axis the window offsets run along: leading (0) or trailing (-1)
+                            offset_axes.append(0 if fname(n.args[1].args[0]) == "slc" else (-1 if fname(n.args[1].args[-1]) == "slc" else None))
+                        return n.args[0]
+                    if fname(n) in ("flatten", "ravel") and len(n.args) == 1:
                         return n.args[0]
                     return None
                 return T.rewrite(t, fn)
@@ -205,8 +222,13 @@ def mean_method_rules(ctx, p, f_eq, fmax, power, nb):
             okv = T.equivalent(g.args[0], arr) == T.Verdict.EQUAL and len(cl) == 1 and cl[0].args[1] == 0 \
                 and T.equivalent(cl[0].args[2], nf - 1 - nb) == T.Verdict.EQUAL \
                 and T.equivalent(drop_newaxis(cl[0].args[0]), IM + op("arange", nb)) == T.Verdict.EQUAL
+            # the sum runs over the axis the offsets were laid out on
+            okv = okv and offset_axes == [sum_axis(vsums[0])]
             LS = sp.Symbol("window_sum")
             t3 = t2.xreplace({vsums[0]: LS}).replace(lambda x: fname(x) == "reshape", lambda x: x.args[0])
+            # result written once into a zero-filled output at every spectrum's own position
+            if fname(t3) == "store" and fname(t3.args[0]) == "zeros" and fname(t3.args[1]) == "unravel_index":
+                t3 = t3.args[2]
             okv = okv and sp.simplify(sp.diff(t3, LS) - 1 / nb) == 0
             ctx.expect(okv, "R12.5", tag + f"[{nm}]",
                        f"{nm} is the mean over the `number_of_bins` bins that start at the window with the smallest criterion "
